@@ -282,6 +282,10 @@ class Shape(object):
             if has_select or (SH_SPARQLTarget in is_types):
                 ct['type'] = SH_SPARQLTarget
                 SPARQLQueryHelper = get_query_helper_cls()
+                if not has_select:
+                    raise ShapeLoadError(
+                        "A sh:SPARQLTarget must have a sh:select.", "https://www.w3.org/TR/shacl-af/#SPARQLTarget"
+                    )
                 qh = SPARQLQueryHelper(self, c, selects[0], deactivated=self._deactivated)
                 qh.collect_prefixes()
                 ct['qh'] = qh
@@ -610,7 +614,11 @@ class Shape(object):
             found_all_mandatory = True
             for mandatory_param in mandatory:
                 path = mandatory_param.path()
-                assert isinstance(path, URIRef)
+                if not isinstance(path, URIRef):
+                    raise ConstraintLoadError(
+                        "The sh:path of a sh:parameter of a Constraint Component must be an IRI.",
+                        "https://www.w3.org/TR/shacl/#constraint-components-parameters",
+                    )
                 found_vals = set(self.sg.objects(self.node, path))
                 # found_vals = value_nodes_from_path(self.node, mandatory_param.path(), self.sg.graph)
                 found_all_mandatory = found_all_mandatory and bool(len(found_vals) > 0)
